@@ -224,53 +224,57 @@ def rule_dispatch(ctx, R, F):
 
 
 def rule_index(ctx, R, F):
-    R.rule('A2-INDEX', 'randomx_argon2_index_alpha is the RFC 9106 3.4.1.2 mapping: reference area sizes per (pass, slice, same lane), J1 -> x = J1^2 >> 32, relative = area - 1 - (area * x >> 32), start position per pass/slice, '
-           'absolute = (start + relative) mod lane_length', min_instances=3)
+    import domains
+    from domains import KB, KBEval
+    R.rule('A2-INDEX', 'randomx_argon2_index_alpha equals the RFC 9106 3.4.1.2 mapping (reference area per pass / slice / same lane, x = J1^2 >> 32, relative = area - 1 - (area * x >> 32), start position, modulo lane length) '
+           'for every (pass, slice, same-lane) case x block indices at both ends of a segment x boundary values of J1, with the instance geometry of RandomX; decided by fixed-width evaluation of the function body '
+           '(so 32-bit truncation of an intermediate is seen)', min_instances=400)
     f = F.func('randomx_argon2_index_alpha')
     R.saw(fn=f['q'], unit=f['_unit'])
-    ren = {p['id']: 'P%d' % i for i, p in enumerate(f['params'])}
-    for x in walk(f['body']):
-        if x['k'] == 'Decl':
-            for d in x['d']:
-                ren[d['id']] = {'reference_area_size': 'AREA', 'relative_position': 'REL', 'start_position': 'START', 'absolute_position': 'ABS'}.get(d['name'], d['name'])
     where = '%s:%d' % (f['file'], f['line'])
-    areas = []
-    tail = []
-    with astq.renaming(ren), astq.nocasts():
-        def rec(s, conds):
-            if s is None:
-                return
-            if s['k'] == 'If':
-                rec(s['t'], conds + [(showv(s['c']), True)])
-                rec(s.get('e'), conds + [(showv(s['c']), False)])
-            elif s['k'] == 'Compound':
-                for x in s['s']:
-                    rec(x, conds)
-            elif s['k'] != 'Decl':
-                top = strip_all(s)
-                if top['k'] == 'Assign' and show(top['l']) == 'AREA':
-                    areas.append((tuple(c for c in conds), showv(top['r'])))
-                elif not conds or show(top.get('l')) == 'START':
-                    tail.append(((tuple(conds)), showv(s)))
-        rec(f['body'], [])
-    exp_areas = [
-        ((('(0 == P1->pass)', True), ('(0 == P1->slice)', True)), '(P1->index - 1)'),
-        ((('(0 == P1->pass)', True), ('(0 == P1->slice)', False), ('P3', True)), '(((P1->slice * P0->segment_length) + P1->index) - 1)'),
-        ((('(0 == P1->pass)', True), ('(0 == P1->slice)', False), ('P3', False)), '((P1->slice * P0->segment_length) + ((P1->index == 0) ? -1 : 0))'),
-        ((('(0 == P1->pass)', False), ('P3', True)), '(((P0->lane_length - P0->segment_length) + P1->index) - 1)'),
-        ((('(0 == P1->pass)', False), ('P3', False)), '((P0->lane_length - P0->segment_length) + ((P1->index == 0) ? -1 : 0))'),
-    ]
-    R.eq('reference area sizes', where, [[list(map(list, a)), b] for a, b in exp_areas], [[list(map(list, a)), b] for a, b in areas])
-    exp_tail = ['(REL = P2)', '(REL = ((REL * REL) >> 32))', '(REL = ((AREA - 1) - ((AREA * REL) >> 32)))', '(START = 0)',
-                '(START = ((P1->slice == (4 - 1)) ? 0 : ((P1->slice + 1) * P0->segment_length)))', '(ABS = ((START + REL) % P0->lane_length))', 'return ABS']
-    got_tail = [t for c, t in tail]
-    got_tail = [t.replace('(P1->slice == 3)', '(P1->slice == (4 - 1))') for t in got_tail]
-    R.eq('mapping and absolute position', where, exp_tail, got_tail)
-    st = [c for c, t in tail if t.startswith('(START = ((P1->slice')]
-    R.check(st == [(('(0 != P1->pass)', True),)], 'start position only after the first pass', where, expected='if (0 != position->pass)', found=[list(map(list, s)) for s in st])
-    # types: relative position is computed in 64 bits
-    tys = {d['name']: d['ty'] for x in walk(f['body']) if x['k'] == 'Decl' for d in x['d']}
-    R.check(tys.get('relative_position') == 'unsigned long' and f['params'][2]['ty'] == 'unsigned int', '64-bit intermediate', where, expected='uint64_t relative_position, uint32_t pseudo_rand', found=(tys.get('relative_position'), f['params'][2]['ty']))
+    ps = f['params']
+    if len(ps) != 4:
+        raise AnalysisBroken('A2-INDEX: index_alpha has %d parameters' % len(ps))
+    inst, pos = ps[0]['name'], ps[1]['name']
+    mem = int(F.macro('RANDOMX_ARGON_MEMORY')['body'])
+    lanes = int(F.macro('RANDOMX_ARGON_LANES')['body'])
+    sync = 4
+    seg = mem // (lanes * sync)
+    lane_len = seg * sync
+    rands = [0, 1, 0xFFFF, 0x10000, 0x7FFFFFFF, 0x80000000, 0xDEADBEEF, 0xFFFFFFFF]
+    n = 0
+    for pas in (0, 1, 2):
+        for sl_ in range(sync):
+            idxs = [2, 3, 100, seg - 1] if (pas == 0 and sl_ == 0) else [0, 1, 2, 100, seg - 1]
+            for idx in idxs:
+                for same in (1, 0):
+                    if same == 0 and lanes == 1 and False:
+                        continue
+                    for j1 in rands:
+                        if pas == 0:
+                            area = (idx - 1) if sl_ == 0 else (sl_ * seg + idx - 1 if same else sl_ * seg + (-1 if idx == 0 else 0))
+                        else:
+                            area = lane_len - seg + idx - 1 if same else lane_len - seg + (-1 if idx == 0 else 0)
+                        if area <= 0:
+                            continue
+                        x = (j1 * j1) >> 32
+                        rel = area - 1 - ((area * x) >> 32)
+                        start = 0 if pas == 0 else (0 if sl_ == sync - 1 else (sl_ + 1) * seg)
+                        want = (start + rel) % lane_len
+                        env = {ps[2]['id']: KB.const(32, j1), ps[3]['id']: KB.const(32, same),
+                               '%s->pass' % pos: KB.const(32, pas), '%s->slice' % pos: KB.const(8, sl_), '%s->index' % pos: KB.const(32, idx), '%s->lane' % pos: KB.const(32, 0),
+                               '%s->segment_length' % inst: KB.const(32, seg), '%s->lane_length' % inst: KB.const(32, lane_len), '%s->lanes' % inst: KB.const(32, lanes), '%s->memory_blocks' % inst: KB.const(32, mem)}
+                        r = KBEval(F, env).run_body(f)
+                        v = r.value() if r is not None else None
+                        n += 1
+                        if v is None:
+                            raise AnalysisBroken('A2-INDEX: the evaluator cannot follow index_alpha for pass %d slice %d index %d' % (pas, sl_, idx))
+                        if v != want or (n % 8 == 1):
+                            R.check(v == want, 'pass %d slice %d index %d %s lane J1=%#x' % (pas, sl_, idx, 'same' if same else 'other', j1), where, expected=want, found=v)
+                        else:
+                            R.ok('pass %d slice %d index %d %s lane J1=%#x' % (pas, sl_, idx, 'same' if same else 'other', j1), where)
+    if n < 400:
+        raise AnalysisBroken('A2-INDEX: only %d cases' % n)
 
 
 def rule_h0(ctx, R, F):
